@@ -293,12 +293,22 @@ impl<'a> LineBreaker<'a> {
             }
 
             // TeX.2021.884
+            let mut starts_with_post_break = false;
             if let Some(disc_nodes) = disc_post_break_nodes.take() {
+                starts_with_post_break = !disc_nodes.is_empty();
                 for disc_node in disc_nodes {
                     inner_list.push(disc_node.into());
                 }
             }
 
+            // TeX.2021.879: discardable nodes at the start of a line are pruned, up to
+            // the next breakpoint. Post-break material of a discretionary is not discardable,
+            // so nothing is pruned after it.
+            if line_index > 0 && !starts_with_post_break {
+                while start_of_line < *break_point && !h_list[start_of_line].non_discardable() {
+                    start_of_line += 1;
+                }
+            }
             inner_list.extend_from_slice(&h_list[start_of_line..*break_point]);
             start_of_line = *break_point + 1;
 
@@ -835,6 +845,34 @@ impl<'a> LineBreaker<'a> {
                                 }
                             }
                             _ => {}
+                        }
+                        // TeX.2021.837: every discardable node after the break (glue, penalties,
+                        // math and explicit kerns, up to the first box) is dropped when the
+                        // break is taken, so it does not belong to the next line. After a
+                        // discretionary break this only happens if the post-break list is
+                        // empty (TeX.2021.840).
+                        let first_after_break = match elem {
+                            Discretionary(discretionary) => {
+                                if discretionary.post_break.is_empty() {
+                                    Some(i + 1 + discretionary.replace_count as usize)
+                                } else {
+                                    None
+                                }
+                            }
+                            _ => Some(i + 1),
+                        };
+                        if let Some(mut s) = first_after_break {
+                            while let Some(next) = list.get(s) {
+                                match next {
+                                    Glue(glue) => diffs.update_from_glue(&glue.value),
+                                    Penalty(_) | Math(_) => {}
+                                    Kern(kern) if kern.kind == ds::KernKind::Explicit => {
+                                        diffs.width += kern.width
+                                    }
+                                    _ => break,
+                                }
+                                s += 1;
+                            }
                         }
                     }
                     for fitness_class in [
